@@ -380,6 +380,20 @@ def check_operator(node, eng, bound_children):
     try:
         adj = A.adjoint
     except Exception as e:  # noqa: the property is conditional
+        must = _adjoint_expected(node, A)
+        if must or not isinstance(e, zoo.REJECT_EXC):
+            # (a) an arithmetic combination / block operator whose operands
+            # all offer adjoints has to offer one itself (the rules only
+            # document OpNotImplementedError for non-linear operands);
+            # (b) an exception outside the documented refusal types is a
+            # crash, not a refusal
+            where, site = _where(e)
+            if where != 'odl':
+                raise
+            raise Violation(
+                'C05|adjoint-raises|{}|{}'.format(tail, type(e).__name__),
+                '.adjoint raises {!r} [{}] ({}); A = {!r}'.format(
+                    e, site, must or 'undocumented exception type', A)[:800])
         eng.notes['adjoint_unavailable'] += 1
         eng.strata += ['status:adjoint_unavailable',
                        'adjoint_unavailable:{}:{}'.format(cls,
@@ -396,6 +410,7 @@ def check_operator(node, eng, bound_children):
         raise Violation('C05|adjoint-type|' + tail,
                         '.adjoint returned {!r}'.format(type(adj)))
     eng.notes['operators_checked'] += 1
+    node.available = True
     if adj.domain != Y or adj.range != X:
         raise Violation(
             'C05|adjoint-spaces|' + tail,
@@ -507,6 +522,27 @@ def check_operator(node, eng, bound_children):
                             e2, mfro, A)[:700])
     eng.strata.append('adjadj-checked')
     return bound
+
+
+COMBINATORS = ('sum', 'sub', 'comp', 'pow', 'neg', 'lvec', 'rvec', 'flvec',
+               'broadcast', 'reduction', 'diagonal', 'pspaceop', 'adjoint')
+SCALAR_COMBINATORS = ('lscal', 'rscal', 'rscal_mul', 'div')
+
+
+def _adjoint_expected(node, A):
+    """Reason why ``A.adjoint`` has to exist, or '' if a refusal is
+    legitimate (leaf operators; complex scalars on operators between a real
+    and a complex space, where the conjugated scalar is outside the field)."""
+    if not node.children or any(not k.available for k in node.children):
+        return ''
+    if node.entry in COMBINATORS:
+        return 'all operands of this {} offer adjoints'.format(node.entry)
+    if node.entry in SCALAR_COMBINATORS:
+        s = complex(node.desc['s'])
+        if s.imag == 0 or fkind(A.domain) == fkind(A.range):
+            return ('all operands of this {} offer adjoints and the scalar '
+                    'lies in both fields'.format(node.entry))
+    return ''
 
 
 def _option_tag(node):
